@@ -245,3 +245,36 @@ CHECKS["C17"]["text"] += (" The report is located by markers learnt from the bin
 CHECKS["C20"]["text"] += (" `clean` must succeed on every explored tree (none contains anything it cannot handle); the reported count is any integer on a stdout line that names no path.")
 CHECKS["C09"]["note"] = (CHECKS["C09"].get("note", "") + " The abstract machine has one transfer function per opcode (63, transcribed from bytecode/src/instruction.rs; opcode numbers are read from"
                          " /repo at run time). A tree that adds an opcode makes the check stop with exit status 2 (machinery: opcode without abstract semantics), never with a verdict.").strip()
+
+# ---- additions made in round 7 ----
+CHECKS["C01"]["text"] += (" Three further condition forms whose two operands both log their evaluation (`g(0)<g(1)`, `g(K)-g(0)==K`, `bf(2)==bf(K)`), and the EMPTY block as a leaf and as"
+                          " the sibling arm of every if/else (shared with C09).")
+CHECKS["C02"]["text"] += (" (g) from-loops over every combination of numeric kinds: start x end x step (absent or of a kind) x counter (fresh, or an existing variable of a kind), observed in the"
+                          " first iteration, after a break in it and after an empty range (typeof vs kind of the counter inside and after the loop).")
+CHECKS["C03"]["text"] += (" Self-reference family: the name being declared used in the initialiser of its own declaration (untyped, typed, const, const typed) in 17 places of the initialiser,"
+                          " and four use-before-declaration faults, in every host.")
+CHECKS["C05"]["text"] += (" + - * / % also as OP-ASSIGNMENT onto a variable, a list element, an object field, a map entry and a captured variable (8 values per kind; the cells whose promoted"
+                          " kind is the kind of the target).")
+CHECKS["C06"]["text"] += (" Sequences: for 3 digit pairs x 10 operators the 16 kind combinations of the same digits (and the negations) are evaluated one after the other in ONE compilation, in"
+                          " every rotation and reversed, against the same sequence over variables (what the compiler keeps between two evaluations must not leak).")
+CHECKS["C07"]["text"] += (" Captured variables of 8 declared types (int, int? nil / present, str?, an object type?, an alias of int, a function type, [int...]) written by `modify` - directly, in a block,"
+                          " in a loop, from an inner closure - with a value of a compatible but not identical type; `modify` with a value read out of a container (element, field, map entry, nested"
+                          " element, function returning an element) followed by a write to that slot (in the closure, by the owner, through a third closure after the owner returned) or to the variable.")
+CHECKS["C08"]["text"] += (" Before the search: two declarations of a class with the SAME NAME in different scopes of one file (two functions, the arms of an if, a nested function, a loop body, next to a"
+                          " module-level class) x 3 class shapes x 6 orders of exercising them (756 programs; part of them also in the corpus of C04 / C18 / C09).")
+CHECKS["C10"]["text"] += (" The const may also be declared OVER AN EARLIER BINDING of its name in the same scope (ordinary / typed variable, parameter, loop counter, variable or const of an earlier"
+                          " sibling block): whether that declaration is accepted is the compiler's business, the name is const from there on (11 write forms x 4 contexts x 3 declaration sites).")
+CHECKS["C12"]["text"] += (" Compositions: `get` applied directly to an `or` form whose fallback is a plain value / an optional variable (nil, present) / an optional result (nil, present), and such an"
+                          " `or` form compared with nil; cases refused by the type checker are counted separately.")
+CHECKS["C13"]["text"] += (" A sixth template TRANSFERS values between two lists and a map by every form (map literal, list literal, index assignment, push, replace, map() with the identity and with a"
+                          " callback that returns a read out of a container, filter with such a callback, through a function returning an element, out of a map entry) and then writes the slot they came from.")
+CHECKS["C15"]["text"] += (" Zero-argument calls as operands: a recursive self() of a parameterless function (bounded by a captured counter) and a parameterless logging function under && || ^ == ! at"
+                          " depth <= 2, in return / if / assignment position, for both values at the recursion bound.")
+CHECKS["C16"]["text"] += (" (f) token soup: EVERY sequence of <= 2 (thorough 3) tokens over a 59-token alphabet (each lexical class, bracket, keyword) and of <= 3 (4) tokens over its 16 structural members,"
+                          " at module level, inside a function body, a class body and an unclosed nested block; (g) assignment flags: every sequence of <= 2 of {modify, const, export} x 11 assignment"
+                          " forms x 13 hosts (blocks, nested blocks, functions whose local / parameter is the target, nested functions, methods) x 6 declarations of the target.")
+CHECKS["C17"]["text"] += (" 21 further failure kinds: overflow / zero divisor / shift / conversion whose operand is a present optional handed out by a built-in (parse_int, parse_bigint, parse_byte,"
+                          " index_of), a list element, an object field or a map entry, and the op-assignment forms of the same; the quick tier runs chains up to length 4.")
+CHECKS["C19"]["text"] += (" Symbol names: the probes export 17 functions whose names (1 .. 300 bytes) are prefixes of one another and return their own name; every exported length must reach exactly that"
+                          " function, 14 lengths in between are missing symbols, in both libraries.")
+NOTES += (" Differential comparisons of programs that take keys() / values() / pairs() of a map compare the output as a multiset of lines, each line a multiset of tokens (HashMap order).")
